@@ -9,7 +9,14 @@ in `Schedule`; when the handler returns the loop drains everything.  In the mode
 a mailbox run is executed ONLY by the loop (`post` on an idle loop, `release`);
 a poster that finds the channel full is parked in `blocked` and runs nothing.
 The statements quantify over every sequence of posts (any mailboxes, any number,
-any position of gated handlers) and releases.
+any position of gated handlers), releases, and posts made BY THE HANDLER that occupies
+the loop goroutine (`selfPost`: a service sending to a sibling on its own dispatcher).
+That last kind is the one way this arrangement can stall for good: `Schedule` is a
+blocking send whose only receiver is the loop goroutine, so a handler that has to hand a
+sibling's run to the dispatcher while all 9 slots are taken blocks the loop on itself
+(`stuck`).  `sched_loop_blocks_only_when_full`, `sched_loop_block_is_forever` and
+`sched_few_mailboxes_never_block` say exactly when; `sched_idle_all_delivered` and
+`sched_release_delivers_all` are the "never stalls" statements outside that state.
 
 Tie to the code: harness/c09/sched_test.go drives the real scheDisp + run service
 with real mailboxes through the same op lines; the implementation additionally
@@ -88,5 +95,65 @@ example :
     ((runOps init (ops ++ [Op.release])).ran.map (·.2)) = [1, 301, 401, 501, 601, 701, 801, 901, 1001, 1101, 1201, 1301] ∧
     (runOps init (ops ++ [Op.release])).gateMb = none := by
   decide
+
+/-- the loop goroutine blocks inside `Schedule` (on its own channel) only while a handler is executing and all 9 slots
+are taken -/
+theorem sched_loop_blocks_only_when_full (s : St) (h : SReachable s) (hs : s.stuck = true) :
+    s.gateMb ≠ none ∧ s.queue.length = 9 := by
+  have hle := sched_channel_bounded s h
+  obtain ⟨ops, rfl⟩ := h
+  obtain ⟨h1, h2⟩ := stuckinv_run ops init inv_init stuckinv_init hs
+  rw [run_cap ops init] at h2
+  have : init.cap = 9 := rfl
+  exact ⟨h1, by omega⟩
+
+/-- **the stall** (several mailboxes on one scheDisp): once the loop goroutine is blocked on its own channel, no
+sequence of further posts, handler posts and releases delivers anything — every mailbox of the dispatcher is dead -/
+theorem sched_loop_block_is_forever (s : St) (h : SReachable s) (hs : s.stuck = true) (ops : List Op) :
+    (runOps s ops).stuck = true ∧ (runOps s ops).ran = s.ran :=
+  stuck_run ops s hs (sched_loop_blocks_only_when_full s h hs).1
+
+/-- **it cannot happen with at most 9 mailboxes on the dispatcher**: if every post (foreign or by a handler) addresses
+one of `n ≤ 9` mailboxes, the loop goroutine never blocks in `Schedule` and no poster ever does either (each mailbox has
+at most one run in the channel, the executing one has none) -/
+theorem sched_few_mailboxes_never_block (n : Nat) (hn : n ≤ 9) (ops : List Op) (hb : OpsBelow n ops) :
+    (runOps init ops).stuck = false ∧ (runOps init ops).blocked = [] := by
+  have := small_run n ops init (by simpa [init] using hn) hb (small_init n)
+  exact ⟨this.2.2.2.2.2, this.2.2.2.2.1⟩
+
+theorem runOps_append (s : St) (a b : List Op) : runOps s (a ++ b) = runOps (runOps s a) b := by
+  simp [runOps, List.foldl_append]
+
+/-- **never stalls, as long as the loop goroutine is not blocked on itself**: when the executing handler returns, the
+loop drains everything — afterwards nothing posted is undelivered, whatever was buffered or blocked -/
+theorem sched_release_delivers_all (s : St) (h : SReachable s) (hs : s.stuck = false) :
+    (release s).mq = [] ∧ (release s).queue = [] ∧ (release s).blocked = [] ∧ (release s).gateMb = none := by
+  have hr : SReachable (release s) := by
+    obtain ⟨ops, rfl⟩ := h
+    exact ⟨ops ++ [Op.release], by rw [runOps_append]; rfl⟩
+  have hg : (release s).gateMb = none := by
+    unfold release
+    rw [if_neg (by simp [hs])]
+    cases hgm : s.gateMb with
+    | none => simpa using hgm
+    | some g => exact (foldl_runMb_fields _ _).2.2.2.1
+  obtain ⟨a, b, c⟩ := sched_idle_all_delivered _ hr hg
+  exact ⟨a, b, c, hg⟩
+
+/-- defect witness (reproduced on the real scheDisp: one handler posting to 10 idle siblings never returns): a gated
+handler, nine foreign posts fill the channel, the handler posts to a tenth idle mailbox — the loop goroutine is stuck;
+the release and a later post deliver nothing -/
+example :
+    let ops := Op.post 0 1 true :: (List.range 9).map (fun i => Op.post (3 + i) ((3 + i) * 100 + 1) false) ++ [Op.selfPost 20 2001]
+    (runOps init ops).stuck = true ∧ (runOps init ops).queue.length = 9 ∧
+    (runOps init (ops ++ [Op.release, Op.post 30 3001 false])).ran = [(0, 1)] := by
+  decide
+/-- non-vacuity of `sched_few_mailboxes_never_block`: 9 mailboxes, the handler posts to all the others and to itself -/
+example : OpsBelow 9 (Op.post 0 1 true :: (List.range 9).map (fun i => Op.selfPost i (i * 100 + 2))) := by
+  intro o ho mb hmb
+  simp only [List.mem_cons, List.mem_map, List.mem_range] at ho
+  rcases ho with rfl | ⟨i, hi, rfl⟩
+  · simp [opMb] at hmb; omega
+  · simp [opMb] at hmb; omega
 
 end Cell2v.Props.C09
